@@ -477,6 +477,77 @@ def r8(ctx, R):
             R.ok("C07.R8", f.short, key(f, ctx.m.enclosing_stmt(c))[:90], loc(f, c), "every stored path comes from the reporting object's own file")
 
 
+def r9(ctx, R):
+    R.rule("C07.R9", "each scope is checked on its own: no object created before the scope loop is handed to a per-scope checker that both writes and reads it (a cache shared across scopes makes one scope's answer decide another's)", floor=2, confirmed=3)
+    agg = aggregator(ctx)
+    summ = ctx.e.summaries()
+    loops = [lp for lp in ctx.m.walk_own(agg.node) if isinstance(lp, ast.For)]
+    scope_loop = None
+    for lp in loops:
+        if any(isinstance(c.func, ast.Attribute) and c.func.attr in ("check_use", "check_definitions", "get_diagnostics") for c in calls_in(lp)):
+            scope_loop = lp
+    if scope_loop is None:
+        R.undecided("C07.R9", agg.short, "scope loop", loc(agg, agg.node), "no loop over the scopes")
+        return
+    var = scope_loop.target.id if isinstance(scope_loop.target, ast.Name) else None
+    inside = {id(x) for b in scope_loop.body for x in ast.walk(b)}
+    for c in calls_in(scope_loop):
+        if not (isinstance(c.func, ast.Attribute) and isinstance(c.func.value, ast.Name) and c.func.value.id == var):
+            continue
+        k_, tg = ctx.r.resolve_call(agg, c)
+        if not tg:
+            continue
+        st = ctx.m.enclosing_stmt(c)
+        bad = None
+        for t in sorted(tg):
+            g = ctx.m.funcs[t]
+            ps = g.params[1:] if g.cls else g.params
+            for i, a in enumerate(list(c.args) + [kw.value for kw in c.keywords]):
+                pname = ps[i] if i < len(c.args) and i < len(ps) else (c.keywords[i - len(c.args)].arg if i >= len(c.args) else None)
+                if pname is None or not isinstance(a, ast.Name):
+                    continue
+                # the argument object is created outside the loop (shared by all iterations)
+                dfs = defs_of(ctx, agg, a.id)
+                if not dfs or all(id(d) in inside for d, _ in dfs):
+                    continue
+                if a.id in agg.params:
+                    continue  # the index handed in by the caller: not private state of this pass
+                writes = [w for (root, path, kind), w in summ.get(t, {}).items() if root == f"param:{pname}"]
+                if not writes:
+                    continue
+                # written and read back (membership / subscript / get) somewhere below the checker
+                def reads_back(q, p, depth=0, seen=None):
+                    seen = seen or set()
+                    if (q, p) in seen or depth > 3:
+                        return False
+                    seen.add((q, p))
+                    h = ctx.m.funcs[q]
+                    for n in ast.walk(h.node):
+                        if isinstance(n, ast.Compare) and isinstance(n.ops[0], (ast.In, ast.NotIn)) and isinstance(n.comparators[0], ast.Name) and n.comparators[0].id == p:
+                            return True
+                        if isinstance(n, ast.Subscript) and isinstance(n.ctx, ast.Load) and isinstance(n.value, ast.Name) and n.value.id == p:
+                            return True
+                        if isinstance(n, ast.Call) and isinstance(n.func, ast.Attribute) and n.func.attr in ("get", "count", "index") and isinstance(n.func.value, ast.Name) and n.func.value.id == p:
+                            return True
+                        if isinstance(n, ast.Call):
+                            passed = [(j, None) for j, x in enumerate(n.args) if isinstance(x, ast.Name) and x.id == p] + [(None, kw.arg) for kw in n.keywords if isinstance(kw.value, ast.Name) and kw.value.id == p and kw.arg]
+                            for j, kwn in passed:
+                                for t2 in ctx.r.resolve_call(h, n)[1]:
+                                    h2 = ctx.m.funcs[t2]
+                                    ps2 = h2.params[1:] if h2.cls else h2.params
+                                    p2 = kwn if kwn is not None else (ps2[j] if j < len(ps2) else None)
+                                    if p2 in ps2 and reads_back(t2, p2, depth + 1, seen):
+                                        return True
+                    return False
+                if reads_back(t, pname):
+                    bad = (a.id, g, pname)
+        k = key(agg, st)
+        if bad:
+            R.violation("C07.R9", agg.short, k, loc(agg, c), f"`{bad[0]}` is created once for the whole file and {bad[1].short} (parameter `{bad[2]}`) both fills and consults it: what one scope resolved is reused in the next - a type accessible in the first scope hides the `not found` error of a later scope that cannot see it")
+        else:
+            R.ok("C07.R9", agg.short, k, loc(agg, c), "no state shared between iterations")
+
+
 def run(ctx, R):
     r1(ctx, R)
     r2(ctx, R)
@@ -485,3 +556,4 @@ def run(ctx, R):
     r5(ctx, R)
     r6(ctx, R)
     r8(ctx, R)
+    r9(ctx, R)
